@@ -312,6 +312,7 @@ class World(object):
         self.timer_owner = {}        # tid -> conn idx (or None)
         self.timer_label = {}
         self.pending_then = []
+        self.payload_refs = []          # bytearray objects handed to the API (the caller keeps them)
         prof = config.get("profile", 3)
         self.profile = prof
         self.factory = ns.factory.MQTTFactory(profile=prof)
@@ -438,13 +439,18 @@ class World(object):
         if isinstance(v, dict) and "$" in v:
             k = v["$"]
             if k == "ba":
-                return bytearray(v["v"].encode("utf-8"))
+                ba = bytearray(v["v"].encode("utf-8"))
+                self.payload_refs.append(ba)
+                return ba
             if k == "bahex":
                 return bytearray(bytes.fromhex(v["v"]))
             if k == "rep":
                 return v["s"] * v["n"]
             if k == "barep":
-                return bytearray(v["s"].encode("utf-8") * v["n"])
+                ba = bytearray(v["s"].encode("utf-8") * v["n"])
+                if v["n"] < 100000:
+                    self.payload_refs.append(ba)
+                return ba
             if k == "obj":
                 return object()
             if k == "tuple":
@@ -721,6 +727,15 @@ class World(object):
         if op.startswith("app."):
             return self._run_app_step(st)
         addr = st.get("addr", "A")
+        if op == "sim.mutate":
+            # the application re-uses a buffer it has passed to publish() earlier: nothing
+            # the client does later may depend on that object any more
+            if not self.payload_refs:
+                raise StepSkipped("no bytearray was handed to the API")
+            ba = self.payload_refs[-1 - (st.get("i", 0) % len(self.payload_refs))]
+            ba[:] = b"OVERWRITTEN-BY-THE-APPLICATION"[:max(1, st.get("n", 30))]
+            self.count("payload_buffer_reused")
+            return
         if op == "sim.set_id":
             # declared harness-side state placement (C17's own quantifier): the public
             # attribute MQTTFactory.id is placed shortly before the 16-bit wrap
